@@ -2,7 +2,21 @@
    This file holds only statements, `exact`-closed theorems, non-vacuity examples and
    Print Assumptions.  Model: model/Naming.v; lemmas: proofs/NamingProofs.v; the alphabet, the
    class MROs and the namer's method table are the generated ones (gen/GenNaming.v, GenTree.v,
-   GenVisitors.v), so the theorems are re-checked against what the code says now. *)
+   GenVisitors.v), so the theorems are re-checked against what the code says now.
+
+   Clauses of the property text -> statements:
+     "names are always produced"                                   C15_total
+     "the elements that carry a name are exactly the direct operands of the tree's operations (or the
+      root alone when there is no operation)"                      C15_named_exactly_operands
+     "all names are distinct whatever the number of operands"      C15_names_distinct (mapping),
+                                                                   C15_tree_names_distinct (tree),
+                                                                   C15_next_name_never_repeats (generator)
+     "the mapping sends each name to the path of the element carrying it and contains nothing else"
+                                                                   C15_mapping_exact
+   All for EVERY tree, whatever names it carried beforehand: TreeAutoNamer.visit first removes the name
+   of every node (_clear_names, model `clear_names`; C15_names_cleared_first).  Before that repair the
+   exact clauses held only for trees without names and were refuted otherwise; the former witnesses are
+   the regression Examples below. *)
 Require Import Base Decimal Tree GenTree GenVisitors GenNaming Visitor Naming TreeInd NamingProofs.
 
 (* ---- tie obligations on generated data *)
@@ -29,22 +43,47 @@ Definition C15_names_distinct_statement : Prop :=
   forall t t' m, auto_name t = Some (t', m) -> NoDup (map fst m).
 
 (* the elements that carry a name are exactly the direct operands of the tree's operations, or
-   the root alone when no operation has an operand *)
+   the root alone when no operation has an operand — for EVERY tree, whatever names it carried before
+   (TreeAutoNamer.visit removes every name of a previous naming first: _clear_names) *)
 Definition C15_named_exactly_operands_statement : Prop :=
-  forall t t' m, unnamed t -> auto_name t = Some (t', m) ->
+  forall t t' m, auto_name t = Some (t', m) ->
     forall q, (exists nm, name_at t' q = Some nm) <->
               (operand_of_operation t q \/ ((forall q', ~ operand_of_operation t q') /\ q = [])).
 
 (* the mapping sends each name to the path of the element carrying it and contains nothing else *)
 Definition C15_mapping_exact_statement : Prop :=
-  forall t t' m, unnamed t -> auto_name t = Some (t', m) ->
+  forall t t' m, auto_name t = Some (t', m) ->
     forall nm q, In (nm, q) m <-> name_at t' q = Some nm.
 
-(* ... and whatever names the tree carried before (a tree named earlier and edited since): every
-   entry of the mapping is the path of an element that now carries that name, and names are distinct *)
+(* (weaker, kept from the time auto_name did not clear names) whatever names the tree carried before (a
+   tree named earlier and edited since): every entry of the mapping is the path of an element that now
+   carries that name, and names are distinct *)
 Definition C15_mapping_sound_any_history_statement : Prop :=
   forall t t' m, auto_name t = Some (t', m) ->
     NoDup (map fst m) /\ forall nm q, In (nm, q) m -> name_at t' q = Some nm.
+
+(* (weaker, likewise) every operand of an operation (or the root alone when no operation has an operand)
+   carries the name the mapping gives it, and the mapping has no other path *)
+Definition C15_operands_named_any_history_statement : Prop :=
+  forall t t' m, auto_name t = Some (t', m) ->
+    forall q, (operand_of_operation t q \/ ((forall q', ~ operand_of_operation t q') /\ q = [])) <->
+              (exists nm, In (nm, q) m /\ name_at t' q = Some nm).
+
+(* "all names are distinct" read on the TREE (not only on the mapping): no two elements carry the same
+   name, for every tree *)
+Definition C15_tree_names_distinct_statement : Prop :=
+  forall t t' m, auto_name t = Some (t', m) ->
+    forall q1 q2 nm, name_at t' q1 = Some nm -> name_at t' q2 = Some nm -> q1 = q2.
+
+(* the names of a previous naming are all removed before the naming: the tree that is named carries no
+   name, and differs from the input by names only (same classes, same shape at every path) *)
+Definition C15_names_cleared_first_statement : Prop :=
+  forall t, unnamed (clear_names t) /\
+    (forall q, subtree_at (clear_names t) q = option_map clear_names (subtree_at t q)) /\
+    (forall q n, subtree_at t q = Some n ->
+       exists n', subtree_at (clear_names t) q = Some n' /\ cls_of n' = cls_of n /\
+                  length (children n') = length (children n)) /\
+    (unnamed t -> clear_names t = t).
 
 (* the successor function on names never repeats, for any number of steps *)
 Definition C15_next_name_never_repeats_statement : Prop :=
@@ -69,8 +108,8 @@ Proof. intros t t' m H. exact (proj1 (auto_name_with_spec gen_letters letters_no
 
 Theorem C15_mapping_exact : C15_mapping_exact_statement.
 Proof.
-  intros t t' m Hu H.
-  exact (proj1 (proj2 (auto_name_with_spec gen_letters letters_nonempty namer_handles t t' m H)) Hu).
+  intros t t' m H.
+  exact (proj1 (proj2 (auto_name_with_exact gen_letters letters_nonempty namer_handles t t' m H))).
 Qed.
 
 Theorem C15_mapping_sound_any_history : C15_mapping_sound_any_history_statement.
@@ -82,9 +121,9 @@ Qed.
 
 Theorem C15_named_exactly_operands : C15_named_exactly_operands_statement.
 Proof.
-  intros t t' m Hu H q.
-  destruct (auto_name_with_spec gen_letters letters_nonempty namer_handles t t' m H) as [_ [Hex [Hp _]]].
-  specialize (Hex Hu). specialize (Hp q).
+  intros t t' m H q.
+  destruct (auto_name_with_exact gen_letters letters_nonempty namer_handles t t' m H) as [_ [Hex Hp]].
+  specialize (Hp q).
   assert (Hin : (exists nm, name_at t' q = Some nm) <-> In q (map snd m)).
   { split.
     - intros [nm Hnm]. apply Hex in Hnm. apply in_map_iff. exists (nm, q). auto.
@@ -94,6 +133,109 @@ Proof.
   split; (intros [Ho|[Hn Hq]]; [left; exact Ho|right; split; [|exact Hq]]);
     intros q' Hq'; apply (Hn q'); apply operand_path_is_operand; exact Hq'.
 Qed.
+
+Theorem C15_operands_named_any_history : C15_operands_named_any_history_statement.
+Proof.
+  intros t t' m H q.
+  destruct (auto_name_with_spec gen_letters letters_nonempty namer_handles t t' m H) as [_ [_ [Hp Hs]]].
+  specialize (Hp q).
+  assert (Hin : In q (map snd m) <-> exists nm, In (nm, q) m /\ name_at t' q = Some nm).
+  { split.
+    - intros Hin. apply in_map_iff in Hin. destruct Hin as [[nm q1] [Hq Hin]]. simpl in Hq. subst q1.
+      exists nm. split; [exact Hin|]. apply Hs. exact Hin.
+    - intros [nm [Hin _]]. apply in_map_iff. exists (nm, q). auto. }
+  rewrite <- Hin, Hp.
+  split; (intros [Ho|[Hn Hq]]; [left; apply operand_path_is_operand; exact Ho|right; split; [|exact Hq]]);
+    intros q' Hq'; apply (Hn q'); apply operand_path_is_operand; exact Hq'.
+Qed.
+
+Lemma nodup_fst_functional (m : list (str * path)) : NoDup (map fst m) ->
+  forall nm q1 q2, In (nm, q1) m -> In (nm, q2) m -> q1 = q2.
+Proof.
+  induction m as [|[n p] m IH]; intros Hnd nm q1 q2 H1 H2; [destruct H1|].
+  simpl in Hnd. inversion Hnd as [|x l Hni Hnd']; subst.
+  destruct H1 as [H1|H1]; destruct H2 as [H2|H2].
+  - congruence.
+  - exfalso. inversion H1; subst. apply Hni. apply in_map_iff. exists (nm, q2). auto.
+  - exfalso. inversion H2; subst. apply Hni. apply in_map_iff. exists (nm, q1). auto.
+  - exact (IH Hnd' nm q1 q2 H1 H2).
+Qed.
+
+Theorem C15_tree_names_distinct : C15_tree_names_distinct_statement.
+Proof.
+  intros t t' m H q1 q2 nm H1 H2.
+  destruct (auto_name_with_exact gen_letters letters_nonempty namer_handles t t' m H) as [Hnd [Hex _]].
+  exact (nodup_fst_functional m Hnd nm q1 q2 (proj2 (Hex nm q1) H1) (proj2 (Hex nm q2) H2)).
+Qed.
+
+Theorem C15_names_cleared_first : C15_names_cleared_first_statement.
+Proof.
+  intros t. split; [exact (clear_names_unnamed t)|]. split; [intros q; exact (subtree_clear_names q t)|].
+  split; [|exact (clear_names_id t)].
+  intros q n Hs. exists (clear_names n). rewrite subtree_clear_names, Hs. split; [reflexivity|].
+  split; [exact (cls_clear_names n)|]. rewrite children_clear_names. apply map_length.
+Qed.
+
+(* ---- regression on the witnesses of the defect repaired in /repo 1efb56a (they refuted the
+   unguarded statements of the model of the old code: C15_named_exactly_refuted, C15_mapping_exact_refuted,
+   C15_tree_names_distinct_refuted — auto_name never cleared a name, so a stale name on an element that is
+   not an operand survived).  On each: the stale name is gone, the elements that carry a name (listed over
+   ALL paths of the tree, pre-order) are exactly the operands, and the mapping is exact. *)
+Definition named_elements (t : item) : list (path * str) :=
+  flat_map (fun q => match name_at t q with Some nm => [(q, nm)] | None => [] end) (preorder_paths [] t).
+
+(* AndOperation(Group(w), Word("y")) with set_name(w, "b") for w = Word("x").  Old code: auto_name returned
+   {'a': (0,), 'b': (1,)} and w kept 'b', the name given to Word('y').  Replayed on the repaired code: same
+   mapping, get_name(w) is None *)
+Definition stale_tree : item :=
+  Op KAnd meta0 [Grp KGroup meta0 (Term KWord (with_name meta0 (Some [98]%N)) [120]%N);
+                 Term KWord meta0 [121]%N].
+
+(* the theorems really reach beyond the former guard: this tree is not `unnamed` *)
+Example C15_stale_tree_is_named : ~ unnamed stale_tree.
+Proof. intros H. specialize (H [0; 0]). vm_compute in H. discriminate. Qed.
+
+Example C15_regression_stale_tree : exists t',
+  auto_name stale_tree = Some (t', [([97]%N, [0]); ([98]%N, [1])]) /\
+  name_at stale_tree [0; 0] = Some [98]%N /\ name_at t' [0; 0] = None /\
+  named_elements t' = [([0], [97]%N); ([1], [98]%N)].
+Proof. eexists. split; [vm_compute; reflexivity|]. repeat split; vm_compute; reflexivity. Qed.
+
+(* named, then edited: w = Word("x"); auto_name(w) names the root 'a'; the named word is then embedded:
+   t = AndOperation(Group(w), Word("y")); auto_name(t).  Old code: w kept 'a', the name given to the group *)
+Definition edited_tree : item :=
+  Op KAnd meta0 [Grp KGroup meta0 (Term KWord (with_name meta0 (Some [97]%N)) [120]%N);
+                 Term KWord meta0 [121]%N].
+
+Example C15_regression_named_then_edited :
+  (exists w', auto_name (Term KWord meta0 [120]%N) = Some (w', [([97]%N, [])]) /\
+              subtree_at edited_tree [0; 0] = Some w') /\
+  exists t', auto_name edited_tree = Some (t', [([97]%N, [0]); ([98]%N, [1])]) /\
+             name_at t' [0; 0] = None /\
+             named_elements t' = [([0], [97]%N); ([1], [98]%N)].
+Proof.
+  split; [eexists; split; vm_compute; reflexivity|].
+  eexists. split; [vm_compute; reflexivity|]. split; vm_compute; reflexivity.
+Qed.
+
+(* named, then the operation is taken away: a AND b named (a, b), then the first operand alone is put under
+   Not — no operation is left, so the root gets 'a'.  Old code: the word kept its 'a' as well *)
+Example C15_regression_operation_removed :
+  exists t', auto_name (Unary KNot meta0 (Term KWord (with_name meta0 (Some [97]%N)) [120]%N))
+             = Some (t', [([97]%N, [])]) /\
+             name_at t' [0] = None /\ named_elements t' = [([], [97]%N)].
+Proof. eexists. split; [vm_compute; reflexivity|]. split; vm_compute; reflexivity. Qed.
+
+(* every element pre-named with the SAME name, root included: all gone but the operands' fresh names *)
+Example C15_regression_all_prenamed :
+  exists t',
+    auto_name (Op KOr (with_name meta0 (Some [97]%N))
+                 [Grp KGroup (with_name meta0 (Some [97]%N)) (Term KWord (with_name meta0 (Some [97]%N)) [120]%N);
+                  Range (with_name meta0 (Some [97]%N)) (Term KWord (with_name meta0 (Some [97]%N)) [49]%N)
+                        (Term KWord (with_name meta0 (Some [98]%N)) [50]%N) true true])
+    = Some (t', [([97]%N, [0]); ([98]%N, [1])]) /\
+    named_elements t' = [([0], [97]%N); ([1], [98]%N)].
+Proof. eexists. split; vm_compute; reflexivity. Qed.
 
 Theorem C15_next_name_never_repeats : C15_next_name_never_repeats_statement.
 Proof.
@@ -117,6 +259,12 @@ Proof.
       repeat (match goal with |- context [nth_error _ ?n] => destruct n; simpl end); try reflexivity.
   - eexists. vm_compute. reflexivity.
 Qed.
+(* "no operation has an operand" (not "no operation"): an operation without operands names nobody, so the
+   root gets the name — auto_name(Group(AndOperation())) == {'a': ()} on the real code *)
+Example C15_root_alone_empty_operation :
+  exists t', auto_name (Grp KGroup meta0 (Op KAnd meta0 [])) = Some (t', [([97]%N, [])]) /\
+             name_at t' [] = Some [97]%N /\ name_at t' [0] = None.
+Proof. eexists. split; [vm_compute; reflexivity|]. split; vm_compute; reflexivity. Qed.
 (* 120 successive names (more than two alphabets) are produced and distinct *)
 Example C15_many_names : exists l st, gen_names gen_letters None 120 = Some (l, st) /\ length l = 120.
 Proof. vm_compute. eauto. Qed.
@@ -127,3 +275,6 @@ Print Assumptions C15_named_exactly_operands.
 Print Assumptions C15_mapping_exact.
 Print Assumptions C15_next_name_never_repeats.
 Print Assumptions C15_mapping_sound_any_history.
+Print Assumptions C15_operands_named_any_history.
+Print Assumptions C15_tree_names_distinct.
+Print Assumptions C15_names_cleared_first.
